@@ -273,6 +273,8 @@ def check_table(case):
         ("sort('b','a')", lambda d: d.sort('b', 'a'), list(zip(b, a))),
         ("sort(['a'])", lambda d: d.sort(['a']), [(x,) for x in a]),
         ("sort(lambda a: neg(a))", lambda d: d.sort(lambda a: _neg(a)), [(_neg(x),) for x in a]),
+        ("sort(lambda a, b: [a, b])", lambda d: d.sort(lambda a, b: [a, b]), [([x, y],) for x, y in zip(a, b)]),
+        ("sort(lambda a, b: (b, a))", lambda d: d.sort(lambda a, b: (b, a)), [((y, x),) for x, y in zip(a, b)]),
         ("sort()", lambda d: d.sort(), None),
         ("sort([])", lambda d: d.sort([]), None),
     ]
